@@ -150,6 +150,19 @@ impl<'a> LogFile<'a> {
     }
 }
 
+/// Builds a `LogFile` (no open writer) of the given path and length for a harness.
+#[cfg(log4rs_verif)]
+#[doc(hidden)]
+pub fn verif_with_log_file<R>(path: &Path, len: u64, f: impl FnOnce(&mut LogFile) -> R) -> R {
+    let mut writer: Option<LogWriter> = None;
+    let mut file = LogFile {
+        writer: &mut writer,
+        path,
+        len,
+    };
+    f(&mut file)
+}
+
 /// An appender which archives log files in a configurable strategy.
 #[derive(Derivative)]
 #[derivative(Debug)]
